@@ -390,12 +390,18 @@ class DeserializationMethodVisitor(
         def factory(constraints: Optional[Constraints], _) -> DeserializationMethod:
             from apischema import settings
 
-            value_map = dict(zip(literal_values(values), values))
+            # bool is an int subclass and True == 1 == 1.0, so key values by class too
+            value_map = {
+                (value.__class__, value): literal
+                for value, literal in zip(literal_values(values), values)
+            }
             return LiteralMethod(
                 value_map,
-                preformat_error(settings.errors.one_of, list(value_map)),
+                preformat_error(
+                    settings.errors.one_of, [value for _, value in value_map]
+                ),
                 self.coercer,
-                tuple(set(map(type, value_map))),
+                tuple({cls for cls, _ in value_map}),
             )
 
         return self._factory(factory)
